@@ -17,6 +17,10 @@
 //!   freeze            => ok <freezer.number> | panic | err
 //!   restart           => ok <freezer.number>
 //!   query             => frozen=<n> tip=<id> b<id>:<HBTCUPXKM> ... t<id>:<W> ...
+//!   crashfreeze       => ok   (oracle only: a child process runs the pass on copies of the node
+//!                              directory and is aborted before/after each of the pass's database
+//!                              writes — `VERIF_CRASH_AT` of the ckb-db hook; every crashed copy is
+//!                              reopened, queried, and must finish the pass like the crash-free run)
 #[path = "../../n02/src/c02.rs"]
 #[allow(dead_code)]
 mod c02;
@@ -268,8 +272,152 @@ impl C10<'_> {
                 self.ex.out.op(line, &l);
                 self.ex.out.count("query");
             }
+            "crashfreeze" => {
+                self.crash_freeze();
+                self.ex.out.op(line, "ok");
+            }
             _ => self.ex.apply(line),
         }
+    }
+}
+
+fn copy_dir(src: &std::path::Path, dst: &std::path::Path) {
+    std::fs::create_dir_all(dst).unwrap();
+    for e in std::fs::read_dir(src).unwrap() {
+        let e = e.unwrap();
+        let (from, to) = (e.path(), dst.join(e.file_name()));
+        if e.file_type().unwrap().is_dir() {
+            copy_dir(&from, &to);
+        } else if e.file_name() != "LOCK" && e.file_name() != "FLOCK" {
+            std::fs::copy(&from, &to).unwrap();
+        } else {
+            std::fs::File::create(&to).unwrap();
+        }
+    }
+}
+
+/// `vh-c10 C10 --out X child <dir> <epoch_len> <w_close> <w_far> <genesis_cells>`: open the node in
+/// `dir`, run one freezer pass, print the database-write counter before and after it
+fn child_main(a: &[String]) -> ! {
+    let dir = std::path::PathBuf::from(&a[1]);
+    let cfg = crate::node::NodeCfg { epoch_len: a[2].parse().unwrap(), window: (a[3].parse().unwrap(), a[4].parse().unwrap()), genesis_cells: a[5].parse().unwrap(), with_pool: false, ..Default::default() };
+    let consensus = crate::node::make_consensus(&cfg);
+    let node = crate::node::Node::start_with_ancient(&dir.join("node"), consensus, &cfg, Some(dir.join("ancient")));
+    let tip = node.tip();
+    ckb_systemtime::faketime().set_faketime(tip.timestamp() + 1000);
+    // let the start-up scan of unverified blocks finish before counting
+    std::thread::sleep(std::time::Duration::from_millis(150));
+    println!("COUNT0 {}", ckb_db::verif_crash::count());
+    let r = node.shared.verif_freeze_once();
+    println!("COUNT1 {} NUMBER {} OK {}", ckb_db::verif_crash::count(), node.store().freezer().map(|f| f.number()).unwrap_or(0), r.is_ok());
+    std::process::exit(0)
+}
+
+impl C10<'_> {
+    fn run_child(&self, dir: &std::path::Path, crash_at: Option<String>) -> (bool, String) {
+        let exe = std::env::current_exe().unwrap();
+        let c = &self.ex.cfg;
+        let mut cmd = std::process::Command::new(exe);
+        cmd.args(["C10", "--out", dir.join("child-out").to_str().unwrap(), "child", dir.to_str().unwrap()]);
+        cmd.args([c.epoch_len.to_string(), c.window.0.to_string(), c.window.1.to_string(), c.genesis_cells.to_string()]);
+        cmd.env_remove("VERIF_CRASH_AT");
+        if let Some(k) = crash_at {
+            cmd.env("VERIF_CRASH_AT", k);
+        }
+        let o = cmd.output().expect("child");
+        (o.status.success(), String::from_utf8_lossy(&o.stdout).to_string())
+    }
+
+    /// crash enumeration over the database writes of one freezer pass (child processes on copies)
+    fn crash_freeze(&mut self) {
+        // baseline answers (cold) and the directory to copy
+        self.ex.restart();
+        let (_, base_exact) = eval(&self.ex);
+        let frozen_before = self.ex.node.as_ref().unwrap().store().freezer().map(|f| f.number()).unwrap_or(0);
+        self.ex.stop_node();
+        let src = self.ex.case_dir();
+        let tmp = src.join("crash");
+        let copy = |name: &str| -> std::path::PathBuf {
+            let d = tmp.join(name);
+            let _ = std::fs::remove_dir_all(&d);
+            copy_dir(&src.join("node"), &d.join("node"));
+            copy_dir(&src.join("ancient"), &d.join("ancient"));
+            d
+        };
+        // crash-free probe
+        let d0 = copy("probe");
+        let (ok, out) = self.run_child(&d0, None);
+        let nums: Vec<u64> = out.split_whitespace().filter_map(|t| t.parse().ok()).collect();
+        if !ok || nums.len() < 3 {
+            self.ex.out.count("crash_probe_failed");
+            let _ = std::fs::remove_dir_all(&tmp);
+            self.ex.start_node();
+            return;
+        }
+        let (c0, c1, final_number) = (nums[0], nums[1], nums[2]);
+        let _ = std::fs::remove_dir_all(&d0);
+        for k in (c0 + 1)..=c1 {
+            for mode in ["before", "after"] {
+                let d = copy(&format!("k{}{}", k, mode));
+                let (ok, _) = self.run_child(&d, Some(format!("{}:{}", k, mode)));
+                if ok {
+                    self.ex.out.count("crash_point_not_reached");
+                    let _ = std::fs::remove_dir_all(&d);
+                    continue;
+                }
+                self.ex.out.count("crash_points");
+                // reopen the crashed copy
+                let consensus = crate::node::make_consensus(&self.ex.cfg);
+                let node = crate::node::Node::start_with_ancient(&d.join("node"), consensus, &self.ex.cfg, Some(d.join("ancient")));
+                let saved = self.ex.node.replace(node);
+                let (_, exact) = eval(&self.ex);
+                let n_after_crash = self.ex.node.as_ref().unwrap().store().freezer().map(|f| f.number()).unwrap_or(0);
+                if n_after_crash < frozen_before {
+                    self.ex.out.oracle_fail("freezer-lost-blocks-after-crash", &format!("{} -> {} (crash {} write {})", frozen_before, n_after_crash, mode, k - c0));
+                }
+                let subjects: std::collections::HashSet<String> = self.main_keys().into_iter().collect();
+                for (key, v) in &exact {
+                    let (acc, subj) = key.split_once(':').unwrap();
+                    if !subjects.contains(subj) {
+                        continue;
+                    }
+                    if let Some(old) = base_exact.get(key) {
+                        if old != v {
+                            let part = ["get_block_body", "get_block_txs_hashes", "get_cellbase", "get_block_uncles", "get_block_proposal_txs_ids", "get_block_extension", "get_packed_block"].contains(&acc);
+                            let class = if part { format!("frozen-block-part-accessor-changed:{}", acc) } else { format!("main-chain-answer-changed-after-crash:{}", acc) };
+                            self.ex.out.oracle_fail(&class, &format!("(crash {} write {} of the pass) {} before `{}` now `{}`", mode, k - c0, key, old, v));
+                        }
+                    }
+                }
+                // the next pass continues and ends where the crash-free pass ended
+                {
+                    let node = self.ex.node.as_ref().unwrap();
+                    ckb_systemtime::faketime().set_faketime(node.tip().timestamp() + 1000);
+                    let shared = node.shared.clone();
+                    let r = catch_unwind(AssertUnwindSafe(|| shared.verif_freeze_once()));
+                    let n2 = node.store().freezer().map(|f| f.number()).unwrap_or(0);
+                    if !matches!(r, Ok(Ok(()))) || n2 != final_number {
+                        self.ex.out.oracle_fail("crash-recovery-diverges", &format!("crash {} write {}: next pass {:?} ends at freezer.number {} (crash-free: {})", mode, k - c0, r.map(|x| x.is_ok()).ok(), n2, final_number));
+                    }
+                    let (_, exact2) = eval(&self.ex);
+                    for key in ["get_block", "get_block_header", "get_transaction", "get_transaction_info", "get_ancestor"] {
+                        for (kk, v) in exact2.iter().filter(|(kk, _)| kk.starts_with(&format!("{}:", key))) {
+                            let subj = kk.split_once(':').unwrap().1;
+                            if subjects.contains(subj) && base_exact.get(kk).map(|o| o != v).unwrap_or(false) {
+                                self.ex.out.oracle_fail(&format!("main-chain-answer-changed-after-crash:{}", key), &format!("(after recovery pass) {}", kk));
+                            }
+                        }
+                    }
+                }
+                let node = self.ex.node.take().unwrap();
+                node.stop();
+                self.ex.node = saved;
+                let _ = std::fs::remove_dir_all(&d);
+            }
+        }
+        let _ = std::fs::remove_dir_all(&tmp);
+        self.ex.start_node();
+        self.ex.out.count("crashfreeze");
     }
 }
 
@@ -289,6 +437,8 @@ fn gen_case(c: &mut C10, rng: &mut Rng) {
     let rounds = rng.range(2, 3);
     let mut target = l * rng.range(3, 4) + rng.below(l);
     let f9 = rng.chance(1, 4);
+    // one crash enumeration in about every third case (each costs ~5 child processes)
+    let crash_round = if !f9 && rng.chance(1, 3) { Some(rng.below(rounds)) } else { None };
     for round in 0..rounds {
         // grow the main chain, with lighter side branches (some become uncles) on the way
         loop {
@@ -313,6 +463,9 @@ fn gen_case(c: &mut C10, rng: &mut Rng) {
         }
         c.apply("restart");
         c.apply("query");
+        if crash_round == Some(round) {
+            c.apply("crashfreeze");
+        }
         c.apply("freeze");
         c.apply("restart");
         c.apply("query");
@@ -347,6 +500,9 @@ fn gen_case(c: &mut C10, rng: &mut Rng) {
 }
 
 pub fn run(opts: &Opts) {
+    if opts.extra.first().map(|s| s.as_str()) == Some("child") {
+        child_main(&opts.extra);
+    }
     let base = crate::node::scratch_dir(&opts.out, "c10");
     let mut out = Out::new(&opts.out);
     {
